@@ -31,6 +31,11 @@ def plan(tier):
             tasks.append((cfg, T + 1 if tier == 'thorough' else T, None, False, 3, 'exact'))
         else:
             tasks.append((cfg, T, 1, True, asize if base else 2, 'exact'))
+    # long streams around the two base executions (state carried over several steps)
+    for cfg in sc.product_configs('sage', 'quick'):
+        if cfg['d'] == 2 and cfg['n_inner'] == 1 and cfg['storage'] == 'Batch' and cfg['names'] == 'str' \
+                and cfg['imputer'] in ('joint', 'default'):
+            tasks.append((dict(cfg, spy=False), 6, 0, False, 2, 'exact'))
     # library defaults and remaining storages / n_inner=3 (not in the quick product)
     for dyn in (False, True):
         for d in (1, 2, 3):
@@ -72,7 +77,7 @@ def make_driver(cfg, T, asize, options, mode):
         for t in range(T):
             x, y = letters[run.choose(len(letters), 'obs', None, 0)]
             kw = {}
-            if options and t >= 1:
+            if options and (t >= 1 or cfg['imputer'] == 'default'):
                 o = run.choose(3, 'opt', None, 1)
                 if o == 1:
                     kw['n_inner_samples'] = cfg['n_inner'] + 1
